@@ -279,19 +279,33 @@ def run_shard(args):
     name, cases = args
     jp = os.path.join(CACHE, "jobs", name + ".json")
     out = os.path.join(CACHE, "jobs", name + ".ndjson")
-    json.dump({"out": out, "scratch": os.path.join(CACHE, "scratch"),
-               "cases": [{"id": c["id"], "files": c["files"], "entry": ".", "requested": c["requested"], "all": c.get("all", False),
-                          "reps": c.get("reps", 1), "m": None} for c in cases]}, open(jp, "w"))
-    rc, o = run(["timeout", "-k", "2", "1500", ZV, "config", jp], timeout=1600)
+    # if the harness process dies on a case (abort, stack overflow, ...) that case is the culprit; the rest is re-run
     byid = {c["id"]: c for c in cases}
     got = {}
-    if os.path.exists(out):
-        for l in open(out, errors="replace"):
-            try:
-                r = json.loads(l)
-            except ValueError:
-                break
-            got[r["id"]] = r["results"]
+    todo = list(cases)
+    rc, o = 0, ""
+    for _attempt in range(30):
+        if not todo:
+            break
+        json.dump({"out": out, "scratch": os.path.join(CACHE, "scratch"),
+                   "cases": [{"id": c["id"], "files": c["files"], "entry": ".", "requested": c["requested"], "all": c.get("all", False),
+                              "reps": c.get("reps", 1), "m": 0} for c in todo]}, open(jp, "w"))
+        rc, o = run(["timeout", "-k", "2", "1500", ZV, "config", jp], timeout=1600)
+        n0 = len(got)
+        if os.path.exists(out):
+            for l in open(out, errors="replace"):
+                try:
+                    r = json.loads(l)
+                except ValueError:
+                    break
+                got[r["id"]] = r["results"]
+        if rc == 0:
+            break
+        missing = [k for k, c in enumerate(todo) if c["id"] not in got]
+        if not missing:
+            break
+        todo = todo[missing[0] + 1:]        # the first missing case killed the process: it stays without an answer (= panic)
+        rc = 0
     obs = os.path.join(CACHE, "jobs", name + ".obs.ndjson")
     lines = []
     for c in cases:
